@@ -9,7 +9,10 @@ TB = ("Trusted base: Coq 8.16.1 kernel; extraction with ExtrOcamlBasic only + th
 
 CHECKS = {
     "C01": ("Theorems (validator soundness for every carrier/model/statement order; uniqueness of the documented meaning; "
-            "soundness of the reference evaluator) + correspondence by execution: loader/layout mirror vs implementation, "
+            "soundness of the reference evaluator; the statement order is topological (soundness proof of the graphlib mirror); the "
+            "mirror generator is a verified compiler: accepted item list -> loader -> generator -> execution returns the meaning of every "
+            "derivative) + correspondence by execution: generated rhs / monitor_values equal the verified mirror's functions statement by "
+            "statement, loader/layout mirror vs implementation, "
             "verified validators on the exported rhs/monitor_values skeleton, every let value and slot vs the extracted "
             "evaluator; Python's own parser as precedence oracle.",
             "Gallina model + verified validator run on the generated code (translation validation) + differential execution"),
@@ -19,29 +22,34 @@ CHECKS = {
             "per-backend slot probing against the reference meaning, all 6 + 24 argument orders called positionally.",
             "Gallina model + verified validator on generated code + differential execution across backends/orders"),
     "C05": ("Theorems (validated Euler program = states + dt*rhs slot by slot in every commutative carrier; dt = 0 returns the "
-            "states under ring laws) + correspondence: valid_euler/valid_rhs on the exported skeletons; direct oracle "
+            "states under ring laws; the mirror's Euler function is valid and correct for every accepted item list) + correspondence: valid_euler/valid_rhs on the exported skeletons; direct oracle "
             "euler == s + dt*rhs bit for bit over dt in {0, tiny, large, negative}, inputs unmodified, all scheme aliases in random "
             "process histories, random argument orders, numpy + jax + C.",
             "Gallina model + verified validator on generated code + metamorphic execution"),
-    "C12": ("Theorems (two validated programs of one model return the same array; a validated body never reads an unbound name) "
-            "+ correspondence: both variants pass the validators against one slot table; direct oracle: rhs and all three schemes "
+    "C12": ("Theorems (two validated programs of one model return the same array; a validated body never reads an unbound name; "
+            "for the mirror generator removal never changes rhs, for every well-formed model) + correspondence: rhs / Euler with and "
+            "without removal equal the verified mirror's functions statement by statement; both variants pass the validators against one slot table; direct oracle: rhs and all three schemes "
             "with/without removal agree bit for bit, same index tables and lengths, NameError counted as failure.",
             "Gallina model + verified validator on both variants + differential execution"),
     "C06": ("Theorems (validated program = x + (f/g)(exp(g dt)-1) / guarded form / Euler per slot for every carrier with field "
-            "laws; the reals satisfy the laws; over R: guarded slot = RL formula iff |g| > delta else Euler, a passed guard excludes "
+            "laws; the mirror of the Rush-Larsen generator passes the validator for every well-formed model, stiff set and mode "
+            "assignment; every slot agrees with Euler to first order in dt; the reals satisfy the laws; over R: guarded slot = RL formula iff |g| > delta else Euler, a passed guard excludes "
             "division by zero, exactness for affine rates; free names of D) + correspondence: Schemes.valid_scheme on the exported "
             "function, slot modes vs mirror prediction, value of every <d>_linearized vs the extracted evaluation of the Coq "
             "differentiator D; direct oracle: returned step vs formula from the model's f and g at random points, states at 0, "
             "affine rates with coefficient at 0 / +-delta(1 -+ 2^-10), five delta values, both scheme names.",
             "Gallina model (symbolic differentiator, scheme shapes) + verified validator + differential execution"),
     "C07": ("Theorems (every validated scheme computes the prescribed update per slot; hybrid = generalized on stiff slots and "
-            "Euler elsewhere for every subset; only states matter) + correspondence: Schemes.valid_scheme on hybrid / generalized / "
+            "Euler elsewhere for every subset; only states matter; the mirror generator is valid for every stiff set) + correspondence: generalized "
+            "and hybrid functions equal the mirror's statement by statement; Schemes.valid_scheme on hybrid / generalized / "
             "Euler functions of one generated module; direct oracle: slot-by-slot bit-for-bit comparison for random subsets incl. "
             "foreign names, random delta, through get_code (add_schemes).",
             "Gallina model + verified validator on three generated functions + metamorphic execution"),
     "C08": ("Theorem load_sound (what the loader mirror accepts has no name with two differing definitions, of any kind, in any "
             "component; every derivative has a declared state in its component; every state a derivative; every referenced symbol "
-            "is defined) + validated code never reads an undefined value + computed rejection of each fault kind; correspondence: "
+            "is defined; names unique across kinds; an accepted model satisfies the generators' preconditions; the sort's order is "
+            "topological, so a dependency cycle of any length gets no order) + validated code never reads an undefined value + computed "
+            "rejection of each fault kind; correspondence: "
             "outcome class of the implementation vs the mirror on every fault-injected text (items taken from the real parse); direct: "
             "a faulty text that yields code is a violation.",
             "Gallina mirror of the loader with soundness theorem + fault-injection differential execution"),
@@ -50,11 +58,14 @@ CHECKS = {
             "a total order) + correspondence: layout in fresh processes = hash-free mirror; direct: byte digests of numpy/jax/C code "
             "and layouts across fresh processes with different PYTHONHASHSEED, in-process histories, held scheme functions.",
             "Gallina model with permutation-invariance theorems + cross-process differential execution"),
-    "C10": ("Theorems (for two presentations of one set of definitions all layout tables and generated functions of the mirror "
-            "coincide; definitions are found by name) - partial: that the loader mirror maps permuted item lists to equivalent models is "
-            "checked by execution - + direct: == , bytes of numpy/C/jax code and layouts for permuted blocks / entries / lines.",
-            "Gallina model with permutation-invariance theorems + metamorphic execution on permuted texts"),
-    "C13": ("Theorems (missing variables = names used but not defined; the halves of a split contain every state, a state in both "
+    "C10": ("Theorems (permuted_text_same_code: if the atomic insertions of two item lists are a permutation of each other - blocks, "
+            "entries, lines permuted - and the first loads, the second loads to an equivalent model with identical statement order, slot "
+            "layout and generated rhs / monitor_values / Euler functions of the mirror; definitions are found by name) + correspondence: "
+            "loader mirror on the items of every permuted text; direct: ==, bytes of numpy / C / jax code and layouts for permuted "
+            "blocks / entries / lines; one known finding (header-less block absorbed, a grammar-level effect).",
+            "Gallina loader model with a permutation-invariance proof + metamorphic execution on permuted texts"),
+    "C13": ("Theorems (the mirror's missing_values is valid and returns the requested meanings for every well-formed model and request; "
+            "missing variables = names used but not defined; the halves of a split contain every state, a state in both "
             "halves is declared in two components; a sub-model fed the full model's values reproduces every quantity, for every carrier; "
             "validated missing_values writes the requested names) + correspondence: Load.to_ode / Load.minus vs to_ode() / __sub__ "
             "(layouts, missing variables), validators on the halves' functions; direct: both halves of every component split, "
@@ -81,7 +92,8 @@ CHECKS = {
             "Gallina model of the functional jax convention + verified validators + jit/no-jit differential execution"),
     "C20": ("Theorems (each substitution round preserves the meaning, so the symbolic rhs has the value of the derivatives' expressions; "
             "a produced rhs is fully expanded; Jacobian entries are D of the expanded entries in the generated state order; D is the "
-            "derivative over the reals (Coquelicot) on the smooth fragment; computed: depth-21 chain refused by the former bound 20, "
+            "derivative over the reals (Coquelicot) on the smooth fragment; rhs and Jacobian are produced for every model that has a "
+            "statement order, whatever the dependency depth; computed: chains of depth 20 / 40, "
             "accepted by the repaired bound, as is depth 41) + correspondence: mirror's rhs_matrix / jacobian evaluated by the extracted "
             "evaluator vs sympytools lambdified; direct: free symbols, values vs generated rhs, Jacobian vs central differences.",
             "Gallina model of rhs_matrix with meaning-preservation theorem, D_sound over R + differential / finite-difference execution"),
@@ -102,12 +114,13 @@ CHECKS = {
             "loader mirror on the items of the real parse of base and decorated text; direct: seven decorations x 46 comment strings, "
             "per-load time limit, layout / membership / numerics compared; three directed lexer-level known findings.",
             "Gallina loader model with inertness theorems + metamorphic execution on decorated texts"),
-    "C11": ("Theorems (partial: the writer's blocks contain exactly the atoms, each under its own components; no header-less block "
-            "follows a headed one; same definitions give the same layout) + correspondence: model-level round trip Save.save_items -> "
-            "Load.load in the extracted code, and the loader mirror on the parse of the file the implementation saved; direct: save -> load "
-            "must load, declared atoms (values, units, descriptions, membership) equal, monitored values / Euler / generalized RL numerically "
-            "equal by name, for 37 constructs sympy normalises, random annotated models and the shipped CellML models.",
-            "Gallina model of the writer's block structure + round-trip differential execution"),
+    "C11": ("Theorems (save_then_load: for every loaded model the items the writer mirror produces load again, to an equivalent model "
+            "with the same layout and generated functions, in whatever order the atoms are listed; blocks contain exactly the atoms, each "
+            "under its own components; no header-less block follows a headed one) + correspondence: model-level round trip Save.save_items -> "
+            "Load.load in the extracted code, loader mirror on the parse of the file the implementation saved; direct: the saved file loads, "
+            "declared atoms equal, monitored values / Euler / generalized RL equal by name at 3 points; 40 constructs sympy normalises, random "
+            "annotated models, shipped CellML models. The text level (sympy printer, Lark) is compared by execution only.",
+            "Gallina writer + loader model with a round-trip proof + save/load differential execution"),
     "C15": ("Theorems (partial: the converter's substitution passes as identifier renamings - a renaming that maps every reference to the "
             "referent's unique name preserves the meaning under the transported environment; passes compose; a pass that matches nothing "
             "changes nothing) + correspondence: no converted expression refers to a name the converted model does not define; direct: shipped "
